@@ -4,6 +4,25 @@
 #include "common/hx.h"
 #include <nstd/Base.hpp>
 
+#ifdef KEY_STRING
+// second build: the key type is nstd String with the library's own hash(const String&) and operator==.
+// Key number k is the 5-character text  ('a' + k % 3) (digit k/3 % 4) 'b' (digit k/12) 'c':  the hash function
+// reads the characters 0, 2 and 4 only, so all keys with the same k % 3 collide whatever the capacity.
+#include <nstd/String.hpp>
+typedef String Key;
+static Key mkKey(int k)
+{
+  char b[6];
+  b[0] = (char)('a' + k % 3); b[1] = (char)('0' + (k / 3) % 4); b[2] = 'b'; b[3] = (char)('0' + (k / 12) % 10); b[4] = 'c'; b[5] = 0;
+  return String(b, 5);
+}
+static int keyNum(const Key& s)
+{
+  const char* p = s;
+  return (p[0] - 'a') + 3 * (p[1] - '0') + 12 * (p[3] - '0');
+}
+static int g_mode = 0;
+#else
 struct Key
 {
   int v;
@@ -12,6 +31,8 @@ struct Key
   bool operator==(const Key& o) const { return v == o.v; }
   bool operator!=(const Key& o) const { return v != o.v; }
 };
+static Key mkKey(int k) { return Key(k); }
+static int keyNum(const Key& k) { return k.v; }
 
 static int g_mode = 0;
 inline usize hash(const Key& k)
@@ -25,6 +46,7 @@ inline usize hash(const Key& k)
   default: return (usize)k.v / 2;
   }
 }
+#endif
 
 #define private public
 #include <nstd/HashMap.hpp>
@@ -55,23 +77,23 @@ typedef PoolMap<Key, int> PM;
 static int g_dom = 6;
 
 // ---- per-container members -----------------------------------------------------------------
-static int keyOf(const HM::Iterator& i) { return i.key().v; }
-static int keyOf(const HS::Iterator& i) { return (*i).v; }
-static int keyOf(const PM::Iterator& i) { return i.key().v; }
+static int keyOf(const HM::Iterator& i) { return keyNum(i.key()); }
+static int keyOf(const HS::Iterator& i) { return keyNum(*i); }
+static int keyOf(const PM::Iterator& i) { return keyNum(i.key()); }
 static int valOf(const HM::Iterator& i) { return *i; }
 static int valOf(const HS::Iterator&) { return 0; }
 static int valOf(const PM::Iterator& i) { return *i; }
 
 // result encoding: -1 = unit, >= 0 = number
-static bool opAppend(HM& c, int k, int v, long& r) { r = c.append(Key(k), v); return true; }
-static bool opAppend(HS& c, int k, int, long& r) { c.append(Key(k)); r = -1; return true; }
-static bool opAppend(PM& c, int k, int, long& r) { r = c.append(Key(k)); return true; }
-static bool opPrepend(HM& c, int k, int v, long& r) { r = c.prepend(Key(k), v); return true; }
-static bool opPrepend(HS& c, int k, int, long& r) { c.prepend(Key(k)); r = -1; return true; }
+static bool opAppend(HM& c, int k, int v, long& r) { r = c.append(mkKey(k), v); return true; }
+static bool opAppend(HS& c, int k, int, long& r) { c.append(mkKey(k)); r = -1; return true; }
+static bool opAppend(PM& c, int k, int, long& r) { r = c.append(mkKey(k)); return true; }
+static bool opPrepend(HM& c, int k, int v, long& r) { r = c.prepend(mkKey(k), v); return true; }
+static bool opPrepend(HS& c, int k, int, long& r) { c.prepend(mkKey(k)); r = -1; return true; }
 static bool opPrepend(PM&, int, int, long&) { return false; }
-static HM::Iterator opInsert(HM& c, const HM::Iterator& p, int k, int v) { return c.insert(p, Key(k), v); }
-static HS::Iterator opInsert(HS& c, const HS::Iterator& p, int k, int) { return c.insert(p, Key(k)); }
-static PM::Iterator opInsert(PM& c, const PM::Iterator& p, int k, int) { return c.insert(p, Key(k)); }
+static HM::Iterator opInsert(HM& c, const HM::Iterator& p, int k, int v) { return c.insert(p, mkKey(k), v); }
+static HS::Iterator opInsert(HS& c, const HS::Iterator& p, int k, int) { return c.insert(p, mkKey(k)); }
+static PM::Iterator opInsert(PM& c, const PM::Iterator& p, int k, int) { return c.insert(p, mkKey(k)); }
 static bool opCopy(HM*& dst, void* mem, const HM& src) { dst->~HM(); dst = new(mem) HM(src); return true; }
 static bool opCopy(HS*& dst, void* mem, const HS& src) { dst->~HS(); dst = new(mem) HS(src); return true; }
 static bool opCopy(PM*&, void*, const PM&) { return false; }
@@ -87,17 +109,17 @@ static bool opAppendAll(PM&, const PM&) { return false; }
 static bool opRemoveAll(HM&, const HM&) { return false; }
 static bool opRemoveAll(HS& a, const HS& b) { a.remove(b); return true; }
 static bool opRemoveAll(PM&, const PM&) { return false; }
-static bool opSetVal(HM& c, int k, int v) { HM::Iterator i = c.find(Key(k)); if(i != c.end()) *i = v; return true; }
+static bool opSetVal(HM& c, int k, int v) { HM::Iterator i = c.find(mkKey(k)); if(i != c.end()) *i = v; return true; }
 static bool opSetVal(HS&, int, int) { return false; }
-static bool opSetVal(PM& c, int k, int v) { PM::Iterator i = c.find(Key(k)); if(i != c.end()) *i = v; return true; }
+static bool opSetVal(PM& c, int k, int v) { PM::Iterator i = c.find(mkKey(k)); if(i != c.end()) *i = v; return true; }
 static bool opRemoveVal(HM&, const HM::Iterator&) { return false; }
 static bool opRemoveVal(HS&, const HS::Iterator&) { return false; }
 static bool opRemoveVal(PM& c, const PM::Iterator& i) { const int& v = *i; c.remove(v); return true; }
 static int opFront(HM& c) { return c.front(); }
-static int opFront(HS& c) { return c.front().v; }
+static int opFront(HS& c) { return keyNum(c.front()); }
 static int opFront(PM& c) { return c.front(); }
 static int opBack(HM& c) { return c.back(); }
-static int opBack(HS& c) { return c.back().v; }
+static int opBack(HS& c) { return keyNum(c.back()); }
 static int opBack(PM& c) { return c.back(); }
 
 // the const overloads of front()/back() must designate the stored value (maps) / key (set) itself, not a temporary
@@ -206,14 +228,14 @@ template<class C> static void observeTable(C& c)
   printf(" f=");
   for(int k = 0; k < g_dom; ++k)
   {
-    typename C::Iterator f = c.find(Key(k));
+    typename C::Iterator f = c.find(mkKey(k));
     if(k) printf(",");
     if(f == c.end()) printf("-");
     else printf("%ld", posOf(c, f));
   }
   printf(" c=");
   for(int k = 0; k < g_dom; ++k)
-    printf("%d", (int)c.contains(Key(k)));
+    printf("%d", (int)c.contains(mkKey(k)));
   if(c.isEmpty()) printf(" fr=- bk=-");
   else
   {
@@ -290,7 +312,7 @@ template<class C> struct Runner
       res = posOf(c, r);
       return true;
     }
-    if(hxIs(l, "remove", 2)) { c.remove(Key((int)hxNum(l, 2))); return true; }
+    if(hxIs(l, "remove", 2)) { c.remove(mkKey((int)hxNum(l, 2))); return true; }
     if(hxIs(l, "removeAt", 2))
     {
       usize pos = hxNum(l, 2);
